@@ -242,16 +242,15 @@ class SecGen(F.Gen):
 
     FAMILIES = ('disjoint', 'overlap', 'stride', 'open', 'intrinsic')
 
-    def __init__(self, rng, features=(), family='disjoint'):
+    def __init__(self, rng, features=(), family='disjoint', form=None):
         super().__init__(rng, tuple(features) + ('section', 'twod'))
         self.family = family
+        self.form = form          # index into the family's list; one form per program (None: drawn in program())
 
-    # ---- the section statements
+    # ---- the section statements: every one in a program is an instance of the same form
     def section_stmt(self):
-        rng = self.rng
-        fam = self.family if rng.random() < 0.85 else 'disjoint'
-        s = rng.choice(getattr(self, 'fam_' + fam)())
-        return [s]
+        forms = getattr(self, 'fam_' + self.family)()
+        return [forms[self.form % len(forms)]]
 
     def sc(self):
         return self.int_leaf(self.int_scalars_noarr)
@@ -382,11 +381,18 @@ class SecGen(F.Gen):
         init = [assign(V('k'), N(0)), assign(V('x'), R(0)), assign(V('t1'), V('m')), assign(V('t2'), N(1)), assign(V('y'), R(1, 2)),
                 {'s': 'do', 'var': 'i', 'lo': N(2), 'hi': N(6), 'st': NONE, 'body': [
                     assign(el('ic', V('i')), call('mod', op('sum', op('prod', V('i'), N(3)), V('n')), N(7)))]}]
+        if self.form is None:
+            self.form = rng.randrange(64)
         body = init + self.block(depth, nstmts)
+        if not any(x['s'] == 'assign' and x['lhs']['name'] in ('ia', 'ib', 'ic', 'ra') and (x['lhs']['k'] == 'var' or any(c['k'] == 'range' for c in x['lhs']['c']))
+                   for x in F._flat(body)):
+            body += self.section_stmt()
         # the local array is observable through the result k
         body += [{'s': 'do', 'var': 'i', 'lo': N(2), 'hi': N(6), 'st': NONE, 'body': [
             assign(V('k'), call('mod', op('sum', op('prod', V('k'), N(3)), el('ic', V('i'))), N(101)))]}]
-        return {'units': [unit('kernel', args, decls, body)] + units}
+        prog = {'units': [unit('kernel', args, decls, body)] + units}
+        prog['form'] = sec_forms({'units': [unit('kernel', args, decls, self.section_stmt())]})
+        return prog
 
 
 def sec_forms(prog):
@@ -436,19 +442,25 @@ def sec_forms(prog):
     return '+'.join(sorted(out)) or 'no-section'
 
 
-# ----------------------------------------------------------------------------- reporting with a custom key
-def report(ctx, label, cases, results, fails, recheck, keyfn, max_groups=6, rounds=6):
-    """Like lib_fm.report_failures, with the shrunk program's normal form supplied by `keyfn(prog)`."""
+# ----------------------------------------------------------------------------- reporting
+def report(ctx, label, cases, results, fails, recheck=None, deadline=None, rounds=6):
+    """One violation per (label, failure signature).  The key is `label:signature` - the label carries the
+    option set and the generator population, so keys do not depend on how far shrinking got.  Shrinking
+    (statement deletion, re-running the whole check on the candidates) only serves the reproducer shown in
+    the report and stops at `deadline` (time.time() value)."""
+    import time
     groups = {}
     for idx, kind, msg in fails:
         groups.setdefault(F.failure_signature(kind, msg), []).append((idx, kind, msg))
     ctx.cover.setdefault('failure_groups', {})[label] = {k: len(v) for k, v in groups.items()}
-    for gi, (sig, members) in enumerate(sorted(groups.items())):
+    for sig, members in sorted(groups.items()):
         idx, kind, msg = min(members, key=lambda m: len(results[m[0]]['text']))
         prog, inputs = cases[idx]
         small = prog
-        if recheck is not None and gi < max_groups:
+        if recheck is not None:
             for _ in range(rounds):
+                if deadline is not None and time.time() > deadline:
+                    break
                 cands = F.removal_candidates(small, limit=24)
                 if not cands:
                     break
@@ -457,11 +469,11 @@ def report(ctx, label, cases, results, fails, recheck, keyfn, max_groups=6, roun
                 if nxt is None:
                     break
                 small = nxt
-        key = f'{label}:{sig}:{keyfn(small)}'
-        ctx.violation(key, f'{label}: {len(members)} program(s); transformed program '
-                           f'{"output differs" if kind == "output" else kind}: {msg[:700]}\n'
-                           f'--- original (shrunk) ---\n{F.render(small)}--- transformed (unshrunk case) ---\n'
-                           f'{results[idx].get("newtext", "")[:3000]}',
+        ctx.violation(f'{label}:{sig}',
+                      f'{label}: {len(members)} program(s); transformed program '
+                      f'{"output differs" if kind == "output" else kind}: {msg[:700]}\n'
+                      f'--- original{" (shrunk)" if small is not prog else ""} ---\n{F.render(small)}'
+                      f'--- transformed (unshrunk case) ---\n{results[idx].get("newtext", "")[:3000]}',
                       {'prog': prog, 'inputs': inputs})
 
 
